@@ -4321,3 +4321,71 @@ def flw16(ctx):
     if n < 2:
         raise AnchorMissing("FLW-16: %d `skip(..)` tail loops over the rule's input / output found in substitution (expected 2)" % n)
     return r
+
+
+# ---------------------------------------------------------------- PAN-17: an index is not used where its bounds check has just failed
+
+def pan17(ctx):
+    """`if let Some(syll) = word.syllables.get_mut(pos.syll_index) { .. } else { .. }`: in the else branch `pos.syll_index`
+    is known to be OUT of bounds. Handing that same `pos` to something that indexes `syllables[pos.syll_index]`
+    (Word::apply_seg_mods, a direct index) there is a certain panic whenever the line is reached -- a contradiction
+    between the test and the use (`* > a:[+nasal] / t_` on `at`: the segment is appended at the end of the word, then its
+    modifiers are applied "at" the out-of-range position)."""
+    r = RuleResult("PAN-17", "SubRule: in the else branch of `if let Some(_) = <word>.syllables.get_mut(pos.syll_index)` the same `pos` is not used to index the syllables again (Word::apply_seg_mods, `syllables[pos.syll_index]`)", floor=4)
+    lib = ctx.lib
+    INDEXERS = set()
+    for b in lib.bodies:
+        # functions of Word that index `self.syllables[<param>.syll_index]` without a check
+        if b.in_test_mod() or not b.hir or b.kind == "closure" or not b.path.startswith("asca::word::Word::"):
+            continue
+        body = hirq.strip(b.hir["body"])
+        for y in hirq.walk(body):
+            if y["e"] == "index" and "Vec<asca::syll::Syllable>" in (y.get("of_ty") or ""):
+                ix = hirq.strip(y["i"])
+                if ix.get("e") == "field" and ix["name"] == "syll_index" and hirq.strip(ix["a"]).get("local") in (b.param_names or []):
+                    if not any(z["e"] == "mcall" and z["name"] in ("in_bounds", "out_of_bounds", "get", "get_mut") for z in hirq.walk(body)):
+                        INDEXERS.add((b.path, (b.param_names or []).index(hirq.strip(ix["a"]).get("local"))))
+    n = 0
+    for b in lib.bodies:
+        if b.in_test_mod() or not b.hir or b.kind == "closure" or not b.path.startswith("asca::subrule::SubRule::"):
+            continue
+        k = 0
+        for x in hirq.walk(b.hir["body"]):
+            if x["e"] != "if" or x.get("else") is None:
+                continue
+            c = hirq.strip(x["cond"])
+            if c.get("e") != "letcond" or [q.get("path") for q in hirq.flat_pats(c["pat"])] != ["core::option::Option::Some"]:
+                continue
+            init = hirq.strip(c["init"])
+            if not (init.get("e") == "mcall" and init["name"] in ("get", "get_mut") and "Syllable" in (init.get("rty") or "") and init["args"]):
+                continue
+            a0 = hirq.strip(init["args"][0])
+            if not (a0.get("e") == "field" and a0["name"] == "syll_index"):
+                continue
+            P = hirq.strip(a0["a"])
+            if P.get("e") != "path" or "hid" not in P:
+                continue
+            n += 1
+            bad = []
+            for y in hirq.walk(x["else"]):
+                if y["e"] == "mcall" and (y.get("def") or "") in {p for p, _ in INDEXERS}:
+                    args = [y["recv"]] + list(y["args"])
+                    for p_, i_ in INDEXERS:
+                        if p_ == y["def"] and i_ < len(args):
+                            a_ = hirq.strip(args[i_])
+                            if a_.get("e") == "path" and a_.get("hid") == P["hid"]:
+                                bad.append((y, "%s(.., %s, ..)" % (p_.rsplit("::", 1)[-1], P.get("local"))))
+                if y["e"] == "index" and "Vec<asca::syll::Syllable>" in (y.get("of_ty") or ""):
+                    ix = hirq.strip(y["i"])
+                    if ix.get("e") == "field" and ix["name"] == "syll_index" and hirq.strip(ix["a"]).get("hid") == P["hid"]:
+                        bad.append((y, "syllables[%s.syll_index]" % P.get("local")))
+            short = b.path.rsplit("::", 1)[-1]
+            r.inst("%s: else-branch #%d of the bounds test of `%s.syll_index` does not index with it" % (short, k, P.get("local")), fn_loc(b, x.get("ln")), "ok" if not bad else "report")
+            for y, what in bad[:1]:
+                r.report("PAN-17|%s|#%d" % (short, k), fn_loc(b, y.get("ln")), b.path,
+                         "`%s` is reached only when `%s.syll_index` has just been found out of bounds (the else branch of `get_mut(%s.syll_index)`), and indexes the syllables with it: a certain panic -- `* > a:[+nasal] / t_` on `at` (the new segment is appended to the last syllable, then its modifiers are applied at the out-of-range position)" % (what, P.get("local"), P.get("local")))
+            k += 1
+    if n < 4:
+        raise AnchorMissing("PAN-17: %d `if let Some(_) = ...syllables.get_mut(pos.syll_index)` tests found in SubRule (expected >= 4)" % n)
+    r.analysed = {"bounds_tests": n, "unchecked_indexers": sorted(p for p, _ in INDEXERS)}
+    return r
